@@ -588,10 +588,63 @@ def check_data_modes(chk, tus, rule):
     skips = [x.get('kind') for x in walk(lb) if x.get('kind') in ('ContinueStmt', 'BreakStmt', 'GotoStmt')]
     m = re.fullmatch(r'(\w+)\s*<\s*(\w+)', cond)
     bound_ok = m is not None and (inits.get(m.group(2)) or _fn_init(body, m.group(2))) in ('module->dataSegments.count',)
+    # decision on bytes (second decision, and the decision for a writer of another shape): the function is partially evaluated on modules
+    # whose segments have the lengths 3, 0, 2, 5 / 0, 0 / 4 (empty segments included) with a model of fwrite that has its return-value
+    # semantics (number of complete items; 0 for a zero size or count): the file must receive the concatenation of all segments
+    bytes_bad = concrete_blob_writer(it, modes['wasmDataSegmentModeGNULD'])
+    if not (ok and uncond and not skips and bound_ok) and bytes_bad is None:
+        chk.ok(rule, 'blob-writer', 'writer of another shape; on concrete modules the blob is the concatenation of all segments')
+        return
+    if bytes_bad is not None:
+        chk.fail(rule, 'blob-writer', 'the data-segment blob writer: %s - the blob must contain every segment, in order, with its full length, because '
+                 'InitMemories addresses it by prefix sums' % bytes_bad, 'wasmCWriteDataSegmentsFromSection:blob')
+        return
     chk.expect(ok and uncond and not skips and bound_ok, rule, 'blob-writer',
                'the data-segment blob writer does fwrite(%s) in a loop over %r (unconditional: %s, skips: %r): the blob must contain every '
                'segment, in order, with its full length, because InitMemories addresses it by prefix sums' % (', '.join(a), cond, uncond, skips),
                'wasmCWriteDataSegmentsFromSection:blob')
+
+
+def concrete_blob_writer(it, mode):
+    """-> discrepancy text or None"""
+    from ..pe import Text
+    for lens in ([3, 0, 2, 5], [0, 0], [4], [], [0, 6]):
+        written = []
+        status = {}
+
+        def fwrite(interp, args, node):
+            p_, size, cnt = args[0], args[1], args[2]
+            if not (isinstance(size, int) and isinstance(cnt, int)):
+                raise pe.PEError('fwrite with symbolic size/count')
+            n = size * cnt
+            for i in range(n):
+                written.append(interp.load(p_.c, p_.k + i))
+            return cnt if size else 0
+
+        def mk():
+            m = M.build(it, types=[([], [])], functions=[0], memories=[(1, 2, False)],
+                        data_segments=[(0, M.i32_const(16 * (k + 1)), n_, False) for k, n_ in enumerate(lens)])
+            ds = m['dataSegments']['dataSegments']
+            if isinstance(ds, Ptr):
+                for k, seg in enumerate(ds.c[:len(lens)]):
+                    seg['bytes'] = {'data': Ptr([(16 * (k + 1) + i) & 0xFF for i in range(lens[k])] + [0xEE], 0), 'length': lens[k]}
+            return m
+        saved = it.leafs.get('fwrite')
+        it.leafs['fwrite'] = fwrite
+        try:
+            paths = it.explore(lambda: ('wasmCWriteDataSegmentsFromSection', [Text('out'), Ptr({'v': mk()}, 'v'), mode], {'stream': emit.Stream([])}))
+        except pe.PEError as e:
+            raise AnalysisBroken('wasmCWriteDataSegmentsFromSection on segments of lengths %r: %s' % (lens, e))
+        finally:
+            if saved is not None:
+                it.leafs['fwrite'] = saved
+        live = [p for p in paths if not p.aborted]
+        want = [(16 * (k + 1) + i) & 0xFF for k, n_ in enumerate(lens) for i in range(n_)]
+        if len(paths) != 1 or len(live) != 1:
+            return 'for segments of lengths %r the writer %s' % (lens, 'stops the translator (%s)' % paths[0].aborted if paths and paths[0].aborted else 'has %d paths' % len(paths))
+        if written != want:
+            return 'for segments of lengths %r it writes %d bytes %r, the concatenation of the segments is %d bytes %r' % (lens, len(written), written[:12], len(want), want[:12])
+    return None
 
 
 def _fn_init(body, name):
